@@ -48,6 +48,21 @@ func nameMatch(name, pat string) bool {
 	if name == pat {
 		return true
 	}
+	if strings.HasPrefix(pat, "(") && strings.HasPrefix(name, "(") {
+		// "(*T).M" matches "(*some/pkg.T).M"
+		if i := strings.Index(name, ")"); i > 0 {
+			recv := name[1:i]
+			star := ""
+			if strings.HasPrefix(recv, "*") {
+				star, recv = "*", recv[1:]
+			}
+			if j := strings.LastIndex(recv, "."); j >= 0 {
+				if "("+star+recv[j+1:]+name[i:] == pat {
+					return true
+				}
+			}
+		}
+	}
 	if strings.HasSuffix(name, pat) {
 		pre := name[:len(name)-len(pat)]
 		if pre == "" {
@@ -440,7 +455,7 @@ func onErrorReturnsErr(fn *ssa.Function, s ssa.CallInstruction) (ok bool, decide
 		evs := errValues(s)
 		for _, r := range returns(fn) {
 			for _, ev := range evs {
-				if r.Results[ei] == ev {
+				if retVal(r, ei) == ev {
 					return true, true, ""
 				}
 			}
@@ -456,7 +471,7 @@ func onErrorReturnsErr(fn *ssa.Function, s ssa.CallInstruction) (ok bool, decide
 				continue
 			}
 			n++
-			if !nonNilErrOperand(ret.Results[ei], evs) {
+			if !nonNilErrOperand(retVal(ret, ei), evs) {
 				return false, true, "a return reachable from the error edge may carry a nil error"
 			}
 		}
